@@ -265,13 +265,13 @@ class Formatter(FormatterInterface):
             "acosh": "arccosh",
             "asinh": "arcsinh",
             "atanh": "arctanh",
+            "min_value": "minimum",
+            "max_value": "maximum",
         }
         function = function_map.get(f.function, f.function)
         args = [self(arg) for arg in f.args]
-        if "bessel_y" in function:
-            return "scipy.special.yn"
-        if "bessel_j" in function:
-            return "scipy.special.jn"
+        if "bessel_y" in function or "bessel_j" in function:
+            raise NotImplementedError("Bessel functions are not supported by the numba backend.")
         if function == "erf":
             return f"math.erf({args[0]})"
         argstr = ", ".join(args)
